@@ -55,7 +55,11 @@ struct Plan<T: El> {
 }
 
 fn run_plan<T: FEl>(tr: &mut Trace, rng: &mut Rng, p: &Plan<T>, dense: usize, extrap: bool) {
-    let (store, dlay, xlay) = gen::next_layout();
+    run_plan_lay(tr, rng, p, dense, extrap, gen::next_layout())
+}
+
+fn run_plan_lay<T: FEl>(tr: &mut Trace, rng: &mut Rng, p: &Plan<T>, dense: usize, extrap: bool, lay: (Store, Lay, Lay)) {
+    let (store, dlay, xlay) = lay;
     let dr = real(&p.data, dlay);
     let xr = real1(&p.x, xlay);
     let dynamic = rng.below(8) == 0;
@@ -261,6 +265,10 @@ pub fn periodic(tr: &mut Trace, rng: &mut Rng, thorough: bool) {
 /// data sampled from polynomials the method can represent (C16)
 fn poly_one<T: FEl>(tr: &mut Trace, rng: &mut Rng, n: usize, lanes: usize, i: usize) {
     let f32m = T::NAME == "f32";
+    // data in a non-standard memory layout always has several lanes on two trailing axes, each with its own
+    // polynomial: only then "contiguous but not row-major" lanes (RevTrail, PermTrail) differ from plain ones
+    let lay = gen::next_layout();
+    let (lanes, two_axes) = if lay.1 != Lay::C { (if lanes >= 4 { lanes } else { 4 + 2 * (i % 2) }, true) } else { (lanes, lanes % 2 == 0 && i % 2 == 1) };
     // dyadic grid axis with few bits so that p(x) is exact
     let (gb, kmax, amax, cb) = if f32m { (1u32, 12i64, 3i64, 0u32) } else { (4u32, 200i64, 20i64, 3u32) };
     let mut k: i64 = rng.range(-kmax / 2, 0);
@@ -312,7 +320,7 @@ fn poly_one<T: FEl>(tr: &mut Trace, rng: &mut Rng, n: usize, lanes: usize, i: us
         polys.push(jarr_s(&cs));
     }
     // an even number of lanes is laid out on two trailing axes every other time (lane number = row-major position)
-    let trailing: Vec<usize> = if lanes % 2 == 0 && i % 2 == 1 { vec![2, lanes / 2] } else { vec![lanes] };
+    let trailing: Vec<usize> = if two_axes { vec![2, lanes / 2] } else { vec![lanes] };
     let mut dshape = vec![n];
     dshape.extend_from_slice(&trailing);
     let mut bshape = vec![1usize];
@@ -320,7 +328,7 @@ fn poly_one<T: FEl>(tr: &mut Trace, rng: &mut Rng, n: usize, lanes: usize, i: us
     let data = ArrayD::from_shape_vec(IxDyn(&dshape), vals).unwrap();
     let rows = ArrayD::from_shape_vec(IxDyn(&bshape), rows).unwrap();
     let plan = Plan { x, data, bc: Bc::Individual(rows), poly: Some(jarr_raw(&polys)) };
-    run_plan(tr, rng, &plan, 4, true);
+    run_plan_lay(tr, rng, &plan, 4, true, lay);
 }
 
 pub fn poly(tr: &mut Trace, rng: &mut Rng, thorough: bool) {
